@@ -18,7 +18,7 @@ package c02
 static struct sigaction c02_prev_segv, c02_prev_bus;
 
 static void c02_handler(int sig, siginfo_t *si, void *ctx) {
-	char buf[48];
+	char buf[80];
 	const char *pre = "C02FAULT addr=0x";
 	int n = 0;
 	while (pre[n]) { buf[n] = pre[n]; n++; }
@@ -31,6 +31,15 @@ static void c02_handler(int sig, siginfo_t *si, void *ctx) {
 			started = 1;
 		}
 	}
+	// si_code: 1 = SEGV_MAPERR, 2 = SEGV_ACCERR, 128 = SI_KERNEL (e.g. non-canonical address: si_addr is 0 then)
+	const char *mid = " code=";
+	for (int i = 0; mid[i]; i++) buf[n++] = mid[i];
+	int code = si->si_code;
+	if (code < 0) { buf[n++] = '-'; code = -code; }
+	char tmp[12];
+	int k = 0;
+	do { tmp[k++] = '0' + code % 10; code /= 10; } while (code && k < 11);
+	while (k) buf[n++] = tmp[--k];
 	buf[n++] = '\n';
 	if (write(2, buf, n) < 0) {}
 	struct sigaction *p = sig == SIGBUS ? &c02_prev_bus : &c02_prev_segv;
